@@ -42,5 +42,5 @@ let () =
        handle (split l) l
      done
    with End_of_file -> ());
-  Printf.printf "W max-gap=%d table-insertions=%d at-or-below-last-round=%d\n" !Hgdrv.w_max_gap !Hgdrv.w_insertions !Hgdrv.w_below;
+  Printf.printf "W max-gap=%d table-insertions=%d at-or-below-last-round=%d gap-bound-exceeded=%d\n" !Hgdrv.w_max_gap !Hgdrv.w_insertions !Hgdrv.w_below !Hgdrv.w_gap_over;
   Printf.printf "DONE %d %d\n" !cases !diffs
